@@ -98,13 +98,15 @@ def wr(harness, picks, params, labels, covers=(), tiers=("quick", "thorough"), t
 
 
 def wr_seq(labels):
-    return [wr("VerifWrSeq", {"setting": 5}, {"K": 3, "W": 16, "HUGE": 0}, labels, ["close", "flush"], thorough={"K": 4}),
-            wr("VerifWrSeq", {"setting": 5}, {"K": 2, "W": 16, "HUGE": 1}, labels, ["close", "flush", "huge"], thorough={"K": 3}),
-            wr("VerifWrSeq", {"setting": 6}, {"K": 3, "W": 16, "HUGE": 0}, labels, ["close", "flush"], thorough={"K": 4}),
-            wr("VerifWrSeq", {"setting": 0}, {"K": 2, "W": 16, "HUGE": 0}, labels, ["close", "flush"], thorough={"K": 3}),
-            wr("VerifWrSeq", {"setting": 3}, {"K": 2, "W": 16, "HUGE": 0}, labels, ["close", "flush"], thorough={"K": 3}),
-            wr("VerifWrSeq", {"setting": 1}, {"K": 2, "W": 16, "HUGE": 0}, labels, ["close", "flush"], tiers=["thorough"]),
-            wr("VerifWrSeq", {"setting": 4}, {"K": 2, "W": 16, "HUGE": 0}, labels, ["close", "flush"], tiers=["thorough"])]
+    return [wr("VerifWrSeq", {"setting": 5}, {"K": 3, "W": 16, "HUGE": 0, "HUGESZ": 0}, labels, ["close", "flush"], thorough={"K": 4}),
+            wr("VerifWrSeq", {"setting": 5}, {"K": 2, "W": 16, "HUGE": 1, "HUGESZ": 32800}, labels, ["close", "flush", "huge"], thorough={"K": 3}),
+            wr("VerifWrSeq", {"setting": 6}, {"K": 2, "W": 16, "HUGE": 1, "HUGESZ": 32950}, labels, ["close", "flush", "huge"], tiers=["thorough"]),
+            wr("VerifWrSeq", {"setting": 5}, {"K": 2, "W": 16, "HUGE": 1, "HUGESZ": 32767}, labels, ["close", "flush", "huge"], tiers=["thorough"]),
+            wr("VerifWrSeq", {"setting": 6}, {"K": 3, "W": 16, "HUGE": 0, "HUGESZ": 0}, labels, ["close", "flush"], thorough={"K": 4}),
+            wr("VerifWrSeq", {"setting": 0}, {"K": 2, "W": 16, "HUGE": 0, "HUGESZ": 0}, labels, ["close", "flush"], thorough={"K": 3}),
+            wr("VerifWrSeq", {"setting": 3}, {"K": 2, "W": 16, "HUGE": 0, "HUGESZ": 0}, labels, ["close", "flush"], thorough={"K": 3}),
+            wr("VerifWrSeq", {"setting": 1}, {"K": 2, "W": 16, "HUGE": 0, "HUGESZ": 0}, labels, ["close", "flush"], tiers=["thorough"]),
+            wr("VerifWrSeq", {"setting": 4}, {"K": 2, "W": 16, "HUGE": 0, "HUGESZ": 0}, labels, ["close", "flush"], tiers=["thorough"])]
 
 
 def kernels(labels, which):
@@ -140,9 +142,9 @@ CHECKS.update({
     "C19": {"level": "model_checking", "runs": kernels(["C19:"], ["dist", "lz77"]) + [r for r in wr_seq(["C19:"]) if r["picks"]["setting"] in (3, 4, 5)],
             "assumptions": ["one lz77 step from an arbitrary state: D <= historySize for historySize in {8, 4096, 32768}; positions may have wrapped (processed up to 2^18)"]},
     "C14": {"level": "model_checking",
-            "runs": [wr("VerifWrFail", {"setting": st, "recover": rc}, {"K": 3, "W": 16, "KMAX": km, "HUGE": 0}, ["C14:"], ["failure-reported", "op-after-failure"], thorough={"K": 4})
+            "runs": [wr("VerifWrFail", {"setting": st, "recover": rc}, {"K": 3, "W": 16, "KMAX": km, "HUGE": 0, "HUGESZ": 0}, ["C14:"], ["failure-reported", "op-after-failure"], thorough={"K": 4})
                      for (st, km) in [(5, 6), (6, 6), (0, 4), (3, 4)] for rc in (0, 1)] +
-                    [wr("VerifWrFail", {"setting": 5, "recover": rc}, {"K": 2, "W": 16, "KMAX": 8, "HUGE": 1}, ["C14:"], ["failure-reported", "huge"], thorough={"K": 3}) for rc in (0, 1)],
+                    [wr("VerifWrFail", {"setting": 5, "recover": rc}, {"K": 2, "W": 16, "KMAX": 8, "HUGE": 1, "HUGESZ": 36000}, ["C14:"], ["failure-reported", "huge"], thorough={"K": 3}) for rc in (0, 1)],
             "assumptions": ["destination model: fails at its k-th call (k symbolic) with a distinct error value, then either keeps failing or recovers (accepts data again)"]},
     "C12": {"level": "model_checking",
             "runs": [wr("VerifWrReset", {"setting": st, "oldfails": of}, {"K1": 2, "K2": 2, "W": 16}, ["C12:"], ["compared"], thorough={"K1": 3})
